@@ -84,9 +84,6 @@ class Harness:
             c.cover('two clients adding on the same parent')
 
         def wit(m):
-            if self.init_race:
-                return {'engine_judged': True, 'programs': ['open + ' + k for k in kinds], 'schedule': [(t, lab) for t, lab in sched.trace],
-                        'accepted': show([(a[0], a[1], a[3]) for a in accepted], m)}
             scn, pred = w.record(m)
             return {'programs': kinds, 'schedule': [(t, lab) for t, lab in sched.trace], 'accepted': show([(a[0], a[1], a[3]) for a in accepted], m),
                     'cloud': {'scenario': scn, 'predicted': pred}}
@@ -162,7 +159,7 @@ class Harness:
         if c.want_sample:
             out['schedule'] = [t for t, _ in sched.trace]
             m = c.get_model()
-            if m is not None and not self.init_race:
+            if m is not None:
                 out['scenario'], out['predicted'] = w.record(m)
             out['_encoded'] = sorted(I.encoded)
             out['_modelled'] = sorted(I.modelled)
@@ -177,15 +174,11 @@ class Harness:
         srv = None
 
         def open_store(results):
-            h = ServiceHandle(w, w.store, k)
-            fut = I.call('CloudServer::new', [h, clone_val(w.secret)])
-
             def opened(r):
                 if r.variant == 0:
                     holder['srv'] = r.fields[0]
-                    w.servers[k] = (r.fields[0], h)
                 return None          # not a Server-trait result
-            return Then(fut, opened)
+            return Then(w.f_open_in_race(k), opened)
 
         def add(parent_of):
             def step(results):
@@ -283,7 +276,7 @@ def configs(tier):
                 dict(name='3clients', factory=lambda: Harness(3, ['add', 'walk'], 0, 'q3'),
                      bounds='3 clients, each add_version or a walk of two child versions, empty store; every interleaving'),
                 dict(name='init-race', factory=lambda: Harness(2, ['add', 'walk'], 0, 'qi', init_race=True),
-                     bounds='2 clients that first open the empty, salt-less store (CloudServer::new: salt read, compare-and-swap, re-read) and then add_version or walk; every interleaving of all Service requests incl. the salt requests; violations of this configuration are judged by the engine')]
+                     bounds='2 clients that first open the empty, salt-less store (CloudServer::new: salt read, compare-and-swap, re-read) and then add_version or walk; every interleaving of all Service requests incl. the salt requests')]
     return [dict(name='2clients-all', factory=lambda: Harness(2, PROGRAMS, 1, 't'), bounds='2 clients, all four programs incl. two consecutive add_versions', time_limit_s=3300),
             dict(name='2clients-page1', factory=lambda: Harness(2, ['add', 'walk'], 1, 'p1', page_size=1), bounds='list page size 1: every page fetch is a scheduling point', time_limit_s=3300),
             dict(name='3clients', factory=lambda: Harness(3, ['add', 'walk'], 0, 't3'), bounds='3 clients, add_version or walk', time_limit_s=3300)]
@@ -292,7 +285,7 @@ def configs(tier):
 ASSUMPTIONS = [
     'interleaving granularity = one Service request (get / put / del / compare_and_swap / list page); the model store executes each request atomically, compare_and_swap included (the Service contract)',
     'cleanup is disabled here (its races are C10); snapshot urgency draw fixed; ring primitives idealised; version ids fresh, distinct, symbolic order',
-    'init-race configuration: CloudServer::new inside the schedule cannot be expressed in the replay scenario format; its counterexamples are judged by the engine and its paths are not sampled for replay',
+    'init-race configuration: the clients open the salt-less store inside the schedule; the replay removes the salt and runs CloudServer::new as the first step of each racing program (salts are random on both sides and are not compared)',
     'replay: programs and schedule are run on the compiled CloudServer over the gated hook store; confirmed when results, request log and store equal the prediction (ids up to renaming)',
 ]
 EXPLANATION = ('programs forked, schedules forked exhaustively (sleep sets over get/list), ids and payload bytes symbolic; after every '
